@@ -12,10 +12,14 @@ import (
 )
 
 type qop struct {
-	kind    string // offer poll peek isempty size iter
+	kind    string // offer poll peek isempty size iter miter final
 	v       int
 	removes []bool // iter: Remove decision after the k-th Next
 	maxNext int
+	// calls at the edges of the iterator protocol (iter; `over` also on final):
+	rem0 bool // Remove() before any Next(): nothing to remove
+	dbl  bool // every scripted Remove() is followed by a second Remove(): the second one has nothing to remove
+	over int  // Next() this many times after HasNext() returned false: nil, nothing changes
 }
 
 type qthread struct {
@@ -38,7 +42,22 @@ func (t qthread) String() string {
 					r += "-"
 				}
 			}
+			if o.rem0 {
+				r = "0" + r
+			}
+			if o.dbl {
+				r += "+dbl"
+			}
+			if o.over > 0 {
+				r += fmt.Sprintf("+over%d", o.over)
+			}
 			s = append(s, fmt.Sprintf("iter[%s]", r))
+		case "final":
+			if o.over > 0 {
+				s = append(s, fmt.Sprintf("final+over%d", o.over))
+			} else {
+				s = append(s, "final")
+			}
 		default:
 			s = append(s, o.kind)
 		}
@@ -58,6 +77,10 @@ type travRec struct {
 type qrun struct {
 	mutex   bool
 	q       queue.Queue
+	s       *sched // own[tid] = scheduling points thread tid has passed (every atomic / lock operation of an active layer is one)
+	tag     string // property the iterator-protocol monitors report under: C15 in the sequential family, C13 otherwise
+	edge    string // first failure of an edge-of-protocol call (exhausted Next, Remove with nothing to remove, mutex Iterator)
+	panic   string // first panic of a logical thread (recovered): a violation, never a silent crash
 	h       history
 	travs   []*travRec
 	drained []int // final drain (quiescent phase)
@@ -76,10 +99,72 @@ func resStr(x interface{}) string {
 	return fmt.Sprintf("v%d", x.(int))
 }
 
+func (r *qrun) edgeFail(format string, args ...interface{}) {
+	if r.edge == "" {
+		r.edge = fmt.Sprintf(format, args...)
+	}
+}
+
+// noopRemove: Remove() when the iterator has nothing to remove (no Next yet, or the element last returned was already removed by
+// this iterator). The model takes it from idleIt with lastRet = none: no shared-memory step, returns. History kind "remove0" is not an
+// operation of the FIFO specification, so the linearizability and accounting monitors demand that it had NO effect on the queue.
+func (r *qrun) noopRemove(tid int, it queue.Iterator, why string) {
+	clock++
+	o := &opRec{tid: tid, kind: "remove0", arg: -1, inv: clock}
+	r.h.ops = append(r.h.ops, o)
+	vsched.Logf("inv %d remove\n", tid)
+	n0 := r.s.own[tid]
+	it.Remove()
+	if d := r.s.own[tid] - n0; d != 0 {
+		r.edgeFail("%s iterator Remove() %s performed %d shared-memory operation(s); there is no element it may remove", r.tag, why, d)
+	}
+	r.h.end(o, "unit")
+}
+
+// exhaustedNext: Next() after HasNext() returned false must return nil and touch nothing.
+func (r *qrun) exhaustedNext(tid int, it queue.Iterator) {
+	o := r.h.begin(tid, "next", -1)
+	n0 := r.s.own[tid]
+	x := it.Next()
+	d := r.s.own[tid] - n0
+	r.h.end(o, resStr(x))
+	if x != nil {
+		r.edgeFail("%s Next() after HasNext()==false returned %v, not nil", r.tag, x)
+	} else if d != 0 {
+		r.edgeFail("%s Next() after HasNext()==false performed %d shared-memory operation(s)", r.tag, d)
+	}
+}
+
+// mutexIterator: "Iterator not supported. MutexLinkedQueue not support iterator." (queue/mutexLinkedQueue.go): the call hands out no
+// iterator, takes no lock (the regenerated bracket structure of C19 says so as well) and leaves the queue alone. The lock-level model has no
+// such operation, so nothing is sent to the acceptor: any lock event during the call is rejected there as an event of an idle thread.
+func (r *qrun) mutexIterator(tid int) {
+	clock++
+	o := &opRec{tid: tid, kind: "miter", arg: -1, inv: clock}
+	r.h.ops = append(r.h.ops, o)
+	n0 := r.s.own[tid]
+	it := r.q.Iterator()
+	d := r.s.own[tid] - n0
+	clock++
+	o.ret, o.res = clock, fmt.Sprintf("%T", it)
+	if it != nil {
+		r.edgeFail("MutexLinkedQueue.Iterator() is documented as not supported but returned a non-nil %T", it)
+	} else if d != 0 {
+		r.edgeFail("MutexLinkedQueue.Iterator() performed %d lock operation(s)", d)
+	}
+}
+
 func (r *qrun) body(tid int, th qthread, mutex bool) func() {
 	return func() {
+		cur := "start"
+		defer func() {
+			if p := recover(); p != nil && r.panic == "" {
+				r.panic = fmt.Sprintf("panic in thread %d during %s: %v", tid, cur, p)
+			}
+		}()
 		for _, op := range th.ops {
 			vsched.Point() // gate: the thread is between operations
+			cur = op.kind
 			switch op.kind {
 			case "offer":
 				o := r.h.begin(tid, "offer", op.v)
@@ -108,8 +193,13 @@ func (r *qrun) body(tid int, th qthread, mutex bool) func() {
 				tr.start = o.inv
 				it := r.q.Iterator()
 				r.h.end(o, "unit")
+				if op.rem0 {
+					cur = "iterator Remove() before any Next()"
+					r.noopRemove(tid, it, "before any Next()")
+				}
 				k := 0
 				for k < op.maxNext {
+					cur = "iterator HasNext()/Next()"
 					o = r.h.begin(tid, "hasnext", -1)
 					hn := it.HasNext()
 					r.h.end(o, fmt.Sprint(hn))
@@ -129,14 +219,27 @@ func (r *qrun) body(tid int, th qthread, mutex bool) func() {
 						o = r.h.begin(tid, "remove", x.(int))
 						tr.removed = append(tr.removed, x.(int))
 						tr.removedAt = append(tr.removedAt, o.inv)
+						cur = "iterator Remove()"
 						it.Remove()
 						r.h.end(o, "unit")
+						if op.dbl {
+							cur = "second iterator Remove() in a row"
+							r.noopRemove(tid, it, "called a second time in a row")
+						}
 					}
 					k++
+				}
+				if tr.complete {
+					cur = "Next() on the exhausted iterator"
+					for j := 0; j < op.over; j++ {
+						r.exhaustedNext(tid, it)
+					}
 				}
 				clock++
 				tr.end = clock
 				vsched.Logf("inv %d drop\n", tid)
+			case "miter":
+				r.mutexIterator(tid)
 			case "final":
 				// quiescent observations (C15): Size, IsEmpty, a full iteration, a drain, Size again
 				o := r.h.begin(tid, "size", -1)
@@ -165,7 +268,12 @@ func (r *qrun) body(tid int, th qthread, mutex bool) func() {
 							r.final.iter = append(r.final.iter, x.(int))
 						}
 					}
+					for j := 0; j < op.over; j++ {
+						r.exhaustedNext(tid, it)
+					}
 					vsched.Logf("inv %d drop\n", tid)
+				} else if op.over > 0 {
+					r.mutexIterator(tid)
 				}
 				for {
 					o = r.h.begin(tid, "poll", -1)
@@ -206,7 +314,14 @@ func genQueueProgram(rng *rand.Rand, family string) (ths []qthread, singleProduc
 		for i := range rm {
 			rm[i] = rng.Intn(3) == 0
 		}
-		return qop{kind: "iter", removes: rm, maxNext: 1 + rng.Intn(8)}
+		op := qop{kind: "iter", removes: rm, maxNext: 1 + rng.Intn(8)}
+		// edges of the iterator protocol, each in about a quarter of the traversals
+		op.rem0 = rng.Intn(4) == 0
+		op.dbl = rng.Intn(4) == 0
+		if rng.Intn(4) == 0 {
+			op.over = 1 + rng.Intn(2)
+		}
+		return op
 	}
 	switch family {
 	case "lag":
@@ -247,6 +362,24 @@ func genQueueProgram(rng *rand.Rand, family string) (ths []qthread, singleProduc
 			}
 			ths = append(ths, qthread{ops: c, phase: 1})
 		}
+	case "mseq":
+		// the mutex queue from one goroutine (C15: both implementations behave like a plain FIFO list)
+		var ops []qop
+		for k := 1 + rng.Intn(12); k > 0; k-- {
+			switch rng.Intn(9) {
+			case 0, 1, 2:
+				ops = append(ops, qop{kind: "offer", v: fresh()})
+			case 3, 4:
+				ops = append(ops, qop{kind: "poll"})
+			case 5:
+				ops = append(ops, qop{kind: "peek"})
+			case 6, 7:
+				ops = append(ops, qop{kind: []string{"size", "isempty"}[rng.Intn(2)]})
+			default:
+				ops = append(ops, qop{kind: "miter"})
+			}
+		}
+		ths = append(ths, qthread{ops: ops, phase: 1})
 	case "seq":
 		var ops []qop
 		for k := 1 + rng.Intn(12); k > 0; k-- {
@@ -271,7 +404,7 @@ func genQueueProgram(rng *rand.Rand, family string) (ths []qthread, singleProduc
 			for k := 1 + rng.Intn(4); k > 0; k-- {
 				kinds := []string{"offer", "offer", "poll", "poll", "peek", "isempty"}
 				if family == "mlin" {
-					kinds = append(kinds, "size", "size", "isempty")
+					kinds = append(kinds, "size", "size", "isempty", "miter")
 				}
 				if family == "mix" {
 					kinds = append(kinds, "size", "iter", "offer", "poll")
@@ -289,7 +422,8 @@ func genQueueProgram(rng *rand.Rand, family string) (ths []qthread, singleProduc
 			ths = append(ths, qthread{ops: ops, phase: 1})
 		}
 	}
-	ths = append(ths, qthread{ops: []qop{{kind: "final"}}, phase: 2})
+	// final quiescent phase; half of the time it also asks the exhausted iterator for more (mutex queue: asks for an iterator)
+	ths = append(ths, qthread{ops: []qop{{kind: "final", over: rng.Intn(2)}}, phase: 2})
 	return
 }
 
@@ -547,20 +681,45 @@ func runQueue(fs *flag.FlagSet, args []string) {
 		}
 		if *impl == "mutex" {
 			family = "mlin"
+			if *cf.kind == "seq" {
+				family = "mseq"
+			}
 		}
 		ths, single := genQueueProgram(rng, family)
-		r := &qrun{mutex: *impl == "mutex"}
+		r := &qrun{mutex: *impl == "mutex", tag: "C13"}
+		if family == "seq" {
+			r.tag = "C15"
+		}
+		// a quarter of the runs make the queue through queue.NewQueue(Type), an eighth (lock-free queue) through queue.DefaultQueue();
+		// documented in queue/pkg.go: "JDKLinkedQueueType indicates JDKLinkedQueue", "MutexLinkedQueueType indicates MutexLinkedQueue",
+		// "DefaultQueue returns jdk concurrent, non blocking queue"
+		via := rng.Intn(8)
 		layers := map[string]bool{"q": true}
+		call, want := "", ""
 		if *impl == "mutex" {
-			r.q = queue.NewMutexLinkedQueue()
+			want = "*queue.MutexLinkedQueue"
+			if via < 2 {
+				r.q, call = queue.NewQueue(queue.MutexLinkedQueueType), "queue.NewQueue(queue.MutexLinkedQueueType)"
+			} else {
+				r.q, call = queue.NewMutexLinkedQueue(), "queue.NewMutexLinkedQueue()"
+			}
 			layers = map[string]bool{"m": true}
 			fmt.Fprintf(out, "reset mqueue\n")
 		} else {
-			r.q = queue.NewJDKLinkedQueue()
+			want = "*queue.JDKLinkedQueue"
+			switch {
+			case via < 2:
+				r.q, call = queue.NewQueue(queue.JDKLinkedQueueType), "queue.NewQueue(queue.JDKLinkedQueueType)"
+			case via == 2:
+				r.q, call = queue.DefaultQueue(), "queue.DefaultQueue()"
+			default:
+				r.q, call = queue.NewJDKLinkedQueue(), "queue.NewJDKLinkedQueue()"
+			}
 			fmt.Fprintf(out, "reset queue\n")
 		}
 		var bodies []func()
 		s := newSched(rng, len(ths))
+		r.s = s
 		var desc []string
 		offered := map[int]bool{}
 		pre := 0
@@ -611,7 +770,12 @@ func runQueue(fs *flag.FlagSet, args []string) {
 				}
 			}
 		}
-		runf(run, "family=%s impl=%s freeze=%d@%d %s", family, *impl, frozenTid, s.freezeAt[frozenTid], strings.Join(desc, " "))
+		runf(run, "family=%s impl=%s ctor=%s freeze=%d@%d %s", family, *impl, call, frozenTid, s.freezeAt[frozenTid], strings.Join(desc, " "))
+		if dyn := fmt.Sprintf("%T", r.q); dyn != want {
+			// no property tag: whichever check runs this variant is not looking at the documented implementation
+			monf(run, "FAIL %s returned %s; queue/pkg.go documents %s for this constructor", call, dyn, want)
+			return
+		}
 		nodes := len(offered) + 1
 		budget := 400 + 60*nodes*len(ths)*8
 		res := vsched.Run(out, layers, bodies, budget, s.pick)
@@ -631,6 +795,12 @@ func runQueue(fs *flag.FlagSet, args []string) {
 			if o.kind == "offer" && o.ret != 0 {
 				completed[o.arg] = true
 			}
+		}
+		if r.panic != "" {
+			msg = r.panic // untagged: reported by every check that runs this program
+		}
+		if msg == "" {
+			msg = r.edge
 		}
 		if msg == "" {
 			msg = r.monitorLin()
